@@ -15,6 +15,8 @@ def concrete_hash(hasher: str, k: int, model: Dict[str, int]) -> int:
         return k
     if hasher == 'samebin':
         return 1 + (k << 20)
+    if hasher == 'twohash':
+        return 1 + ((k & 1) << 6)
     if hasher == 'mixed':
         return 1 + ((k & 3) << 20)
     if hasher == 'split':
@@ -50,7 +52,7 @@ def replay_args(sc: Scenario, f: Finding) -> List[str]:
         keys |= set(ks)
         extra = ['collect=%d:%s' % (sc.bulk[2], ','.join(str(k) for k in ks))]
     return extra + ['cap=%s' % ('none' if sc.capacity is None else sc.capacity), 'facade=%s' % sc.facade,
-            'hash=' + ','.join('%d:%d' % (k, concrete_hash(sc.hasher, k, m)) for k in sorted(keys) if k < 256),
+            'hash=' + ','.join('%d:%d' % (k, concrete_hash(sc.hasher, k, m)) for k in sorted(keys | {250, 251, 252, 253}) if k < 256),
             'prefill=' + ','.join(str(k) for k in sc.prefill), 'keep=' + ','.join(keep), 'panic_at=%d' % (sc.panic_at or 0), 'ops=' + ','.join(ops)]
 
 
